@@ -26,6 +26,10 @@ structure LoadedX (st : St) : Prop where
   base     : Loaded st
   preludeX : ∀ name v, (name, v) ∈ PreludeX.table → ∃ w, st.getGlobal name cs!"prelude" = .found w ∧ w.get = v
   gensymN  : ∃ w, st.getGlobal cs!"gensym" cs!"prelude" = .found w ∧ w.get = .native .gensym
+  /-- the natives the definitions of Props/C16d use beyond those of `Loaded`: `append` (concat), `.` (try), `divide` (/),
+  `eval` (let) -/
+  nativesX : ∀ id, id ∈ [NativeId.append, .getProperty, .divide, .eval] →
+               ∃ w, st.getGlobal id.name cs!"prelude" = .found w ∧ w.get = .native id
 
 
 section helpers
@@ -651,6 +655,13 @@ theorem exStX_loaded : LoadedX exStX where
   gensymN := by
     obtain ⟨w, hw, hp⟩ := found_of_check (l := exStX.getGlobal cs!"gensym" cs!"prelude")
       (P := fun w => w.get == .native .gensym) (by decide +kernel)
+    exact ⟨w, hw, eq_of_beq hp⟩
+  nativesX := by
+    have hall : [NativeId.append, .getProperty, .divide, .eval].all
+        (fun id => match exStX.getGlobal id.name cs!"prelude" with
+          | .found w => w.get == .native id | _ => false) = true := by decide +kernel
+    intro id hmem
+    obtain ⟨w, hw, hp⟩ := found_of_check (List.all_eq_true.mp hall id hmem)
     exact ⟨w, hw, eq_of_beq hp⟩
 
 /-- `(case (a 1) (b 2))` in `exStX` expands to `(if a 1 (if b 2 nil))` -/
